@@ -314,6 +314,7 @@ impl<'tcx> Cx<'tcx> {
                 ("op", self.operand(owner, body, o)),
                 ("ty", self.ty(*t)),
                 ("tag", self.ty_tag(*t)),
+                ("src", self.ty(o.ty(body, self.tcx))),
             ]),
             Rvalue::BinaryOp(op, b) => jobj(vec![
                 ("k", esc("BinaryOp")),
